@@ -137,6 +137,27 @@ def scStartRace : Scenario where
     -- client 1: wait passes, stTry spawns ; client 2 shuts the pool down for good
     [.cl 1, .cl 1] ++ dispPark ++ shutdownMoves 2 1 ++ dispExit ++ [.wk 0, .wk 0, .cl 2, .cl 2]
 
-def scenarios : List Scenario := [scWindow, scWindowBusy, scGap, scRestart, scStartRace]
+/-- **hasWork order**: the life cycle on which a dispatcher that read the counter before `isRunning` would lose a
+task (see `C16_haswork_order_witness`); the real dispatcher reads `isRunning` first and serves the task. -/
+def scHasWork : Scenario where
+  name := "haswork"
+  p := { W := 1, cancel := false }
+  scripts := [[.start], [.submit leaf], [.shutdown, .waitComplete]]
+  moves := startMoves 0 ++ dispPark ++ [.cl 1, .cl 1, .cl 1, .cl 1, .disp, .disp] ++
+    [.wk 0, .wk 0, .wk 0, .wk 0, .wk 0] ++ dispPark ++ shutdownMoves 2 1 ++ dispExit ++ [.wk 0, .wk 0, .cl 2, .cl 2]
+
+/-- two foreign goroutines wait on the exported queue (`Queue.WaitSizeIsAbove(5)`): woken by every broadcast, they go
+back to sleep, and stay asleep at the end; everything else terminates. -/
+def foreignNap : List Mv := [.cl 1, .cl 1, .cl 2, .cl 2]
+
+def scForeign : Scenario where
+  name := "foreign"
+  p := { W := 1, cancel := false }
+  scripts := [[.start, .submit leaf, .waitZero, .shutdown, .waitComplete], [.waitAbove 5], [.waitAbove 5]]
+  moves := startMoves 0 ++ dispPark ++ foreignNap ++
+    [.cl 0, .cl 0, .cl 0, .cl 0] ++ foreignNap ++ [.disp, .disp, .wk 0, .wk 0, .wk 0, .wk 0, .wk 0] ++ foreignNap ++
+    [.cl 0, .cl 0] ++ dispPark ++ shutdownMoves 0 1 ++ foreignNap ++ dispExit ++ [.wk 0, .wk 0, .cl 0, .cl 0]
+
+def scenarios : List Scenario := [scWindow, scWindowBusy, scGap, scRestart, scStartRace, scHasWork, scForeign]
 
 end Hive.WP
